@@ -570,6 +570,28 @@ impl<'a> Cx<'a> {
                             }
                         }
                     }
+                    Kind::AccessParam if self.c.n("nested", 3) == 0 => {
+                        // the field of a blob-typed field; the inner blob is declared after (or before) the outer one
+                        let later = self.c.n("inner-later", 3) != 0;
+                        let outer = "Zzo :: blob { zzin: Zzi, zzk: int }\n".to_string();
+                        let inner = "Zzi :: blob { zzv: int, zzw: str }\n".to_string();
+                        if later {
+                            prelude.push(outer);
+                            prelude.push(inner);
+                        } else {
+                            prelude.push(inner);
+                            prelude.push(outer);
+                        }
+                        let nf = if self.good { ["zzv", "zzw"][self.c.n("nf", 2)] } else { "zznope" };
+                        setup.push(self.helper(format!("zzf :: {} zzp: Zzo -> do", self.kw("kw")), vec![format!("zzp.zzin.{}", nf)]));
+                        let called = self.c.n("call", 3) != 0;
+                        form = format!("nested-blob-declared-{}/{}", if later { "later" } else { "earlier" }, if called { "helper-called" } else { "helper-never-called" });
+                        if called {
+                            Core::Expr("zzf(Zzo { zzin: Zzi { zzv: 1, zzw: \"a\" }, zzk: 2 })".into())
+                        } else {
+                            Core::Expr("0".into())
+                        }
+                    }
                     Kind::AccessParam => {
                         setup.push(self.helper(format!("zzf :: {} zzp: {} -> do", self.kw("kw"), self.bann(b)), vec![format!("zzp.{}", f)]));
                         if self.c.n("call", 4) == 0 {
